@@ -14,6 +14,7 @@ import YashModel.Syntax.Sexp
 import YashModel.Syntax.Lexer
 import YashModel.Syntax.Spec
 import YashModel.Syntax.Structure
+import YashModel.Syntax.Decl
 open YashModel YashModel.Syntax YashModel.Proto
 
 /-- an escape unit in the notation of the tree S-expressions -/
@@ -82,7 +83,14 @@ def runLine (line : String) : String :=
     | some (sx, _) =>
       match toList sx with
       | none => "bad-case\t-"
-      | some l => s!"ok {encChars (printList false l)}\t{specColumn l}"
+      | some l =>
+        -- the expansion modes the real parser gave to the words of every simple command (whatever the placement
+        -- of redirections in the source) must be the ones the words alone determine (`wordModes`)
+        let declOk := (sxSimpleModes sx).all fun p => wordModes posixGlossary none p.1 == p.2
+        let spec := specColumn l
+        let spec := if !declOk && !spec.startsWith "FAIL" then
+          "FAIL:declaration-utility-decision-is-not-the-one-the-words-determine" else spec
+        s!"ok {encChars (printList false l)}\t{spec}"
     | none => "bad-case\t-"
   | _ => "bad-case\t-"
 
